@@ -39,7 +39,7 @@ class Contract:
     def __init__(self, target, requires=(), ensures=(), raises=(), on_raise=None, modifies=None,
                  returns=None, loops=None, params=None, max_paths=4000, pure_spec=None,
                  no_return=False, props=(), ghost_asserts=None, notes="", assumed=False,
-                 locals=None, ghost_modifies=(), decreases=None):
+                 locals=None, ghost_modifies=(), decreases=None, loop_all=None):
         self.target = target
         self.requires = list(requires)
         self.ensures = list(ensures)
@@ -59,6 +59,7 @@ class Contract:
         self.locals = locals or {}   # type specs of local variables (lists) where needed
         self.ghost_modifies = list(ghost_modifies)
         self.decreases = decreases   # integer measure over the parameters (recursion variant)
+        self.loop_all = list(loop_all or [])   # invariants of every loop without its own entry
 
 
 class Seq:
@@ -85,9 +86,10 @@ class World:
         self.trusted_used = set()
         self.havoc_callables = {}
         self.model_prefs_fns = []
-        from . import builtins_lib, maps
+        from . import builtins_lib, maps, refs
         builtins_lib.install(self)
         maps.install(self)
+        refs.install(self)
 
     # ---- sources ---------------------------------------------------------------------
     def load_module(self, modname):
@@ -636,6 +638,13 @@ class World:
             return Seq(concrete=[it.lift(o) for o in v.obj])
         if isinstance(v, VConst) and isinstance(v.obj, type) and issubclass(v.obj, enum.Enum):
             return Seq(concrete=[it.lift(o) for o in v.obj])
+        if isinstance(v, VAtom):
+            try:
+                o = sym.atom_obj(v)
+            except KeyError:
+                o = None
+            if isinstance(o, type) and issubclass(o, enum.Enum):
+                return Seq(concrete=[it.lift(m) for m in o])
         if isinstance(v, VOpaque) and getattr(v, "seq", None) is not None:
             return v.seq
         r = self.as_sequence_ext(it, v, node)
